@@ -259,8 +259,22 @@ func verifC02(c *drv.Ctx) {
 		if vpn {
 			extra = nil
 		}
-		sc := &vE2ESpec{Args: append(append(append([]string{}, cmd.args...), extra...), "--json", "--exclude", "{DIR}/ex.txt", "10.0.1.16/28"),
-			Files: map[string]string{"ex.txt": strings.Join(content, "\n") + "\n"}, Positive: func(string, uint16) bool { return false }}
+		pfile := len(extra) > 0 && extra[0] == "@portsfile"
+		cargs := cmd.args
+		if pfile {
+			// the ports come from a file instead of -p (the options are parsed by one function per command family)
+			extra = []string{"--ports-file", "{DIR}/ports.txt"}
+			cargs = nil
+			for i := 0; i < len(cmd.args); i++ {
+				if cmd.args[i] == "-p" {
+					i++
+					continue
+				}
+				cargs = append(cargs, cmd.args[i])
+			}
+		}
+		sc := &vE2ESpec{Args: append(append(append([]string{}, cargs...), extra...), "--json", "--exclude", "{DIR}/ex.txt", "10.0.1.16/28"),
+			Files: map[string]string{"ex.txt": strings.Join(content, "\n") + "\n", "ports.txt": "1080\n"}, Positive: func(string, uint16) bool { return false }}
 		if vpn {
 			// the scan leaves through an interface without hardware address: no ARP cache, raw IP framing
 			sc.World = c01vpnWorld
@@ -360,6 +374,9 @@ func verifC02(c *drv.Ctx) {
 			for _, cmd := range c02cmds {
 				if cmd.kind != "arp" && cmd.kind != "app" {
 					run1(cur, cmd, "@vpn")
+				}
+				if cmd.ports {
+					run1(cur, cmd, "@portsfile")
 				}
 			}
 		}
